@@ -35,6 +35,7 @@ type HandleObs struct {
 	Cls string `json:"cls"` // none | ok | closed | err
 	C0  []int  `json:"c0"`
 	C1  []int  `json:"c1"`
+	Dd  bool   `json:"dd"` // collection c1 has the design document
 }
 type FeedLifeObs struct {
 	N    int  `json:"n"`    // callbacks since the previous line
@@ -174,6 +175,13 @@ func (lr *lifeRun) exec(a *LifeAct) (string, string) {
 		case "Drop":
 			err := lr.hs[a.H].DropDataStore(lifeColl("c1"))
 			return classify(err), err
+		case "PutDDoc":
+			ds, err := lr.hs[a.H].NamedDataStore(lifeColl("c1"))
+			if err != nil {
+				return classify(err), err
+			}
+			err = ds.(*rosmar.Collection).PutDDoc(ctx, "vd", viewDDoc())
+			return classify(err), err
 		case "StartFeed":
 			b := lr.hs[a.H]
 			lf := &lifeFeed{term: make(chan bool), done: make(chan struct{})}
@@ -251,6 +259,11 @@ func (lr *lifeRun) probe(b *rosmar.Bucket) HandleObs {
 			ds, err := b.NamedDataStore(lifeColl(c))
 			if err != nil {
 				return classify(err), err
+			}
+			if c == "c1" {
+				if dd, err := ds.(*rosmar.Collection).GetDDocs(); err == nil {
+					_, o.Dd = dd["vd"]
+				}
 			}
 			for id := 1; id <= lr.maxID; id++ {
 				ok, err := ds.Exists(fmt.Sprintf("w%d", id))
